@@ -242,4 +242,8 @@ def conditions(tier, seed):
             if c.name not in seen:
                 seen.add(c.name)
                 out.append(c)
+    # unions written on the spot (X | Y objects are not kept alive by the caller): shared with C12
+    from vlib.props import c12
+
+    out.append(c12.make_fresh(2 * to))
     return out
